@@ -329,6 +329,11 @@ func runFitgen(bin, input, ver, out string, viaZip, override, hrst bool) (string
 	}
 	args = append(args, input, out)
 	cmd := exec.Command(bin, args...)
+	if !filepath.IsAbs(out) {
+		// a relative output directory, resolved against the command's
+		// working directory (= the directory that holds the input)
+		cmd.Dir = filepath.Dir(input)
+	}
 	var buf bytes.Buffer
 	cmd.Stdout = &buf
 	cmd.Stderr = &buf
@@ -392,7 +397,14 @@ func checkSelection(c selCase, labels map[string]int) (string, bool) {
 			}
 			labels["second run over existing longer files"]++
 		}
-		log, err := runFitgen(bin, input, c.Version, o, c.ViaZip, c.ZipOverride, c.HRST)
+		outArg := o
+		if i == 1 {
+			// the second run names its output directory relative to the
+			// working directory (the way the command is used from a shell
+			// or a go:generate line)
+			outArg = filepath.Base(o)
+		}
+		log, err := runFitgen(bin, input, c.Version, outArg, c.ViaZip, c.ZipOverride, c.HRST)
 		if err != nil {
 			tail := log
 			if len(tail) > 1500 {
